@@ -18,7 +18,7 @@ package tls
 // C12: the server's ALPN selection is accepted only when it is one of the protocols the client offered
 // (checkALPN is the only ALPN test of both the TLS 1.2 and the TLS 1.3 client paths).
 //@ func checkALPN
-//@   property C12
+//@   property C12 C33
 //@   pure
 //@   ensures member: ret == nil ==> serverProto == "" || among(clientProtos, serverProto)
 //@   ensures reject: serverProto != "" && !among(clientProtos, serverProto) ==> ret != nil
@@ -89,7 +89,7 @@ package tls
 
 // helper of handshake_messages.go: s.ReadUint24LengthPrefixed into a *[]byte
 //@ func readUint24LengthPrefixed
-//@   property C21
+//@   property C21 C33
 //@   let n = (*s)[0]*65536 + (*s)[1]*256 + (*s)[2]
 //@   requires s != nil && out != nil
 //@   modifies *s, *out
@@ -100,7 +100,7 @@ package tls
 
 // unmarshal is total, keeps the raw message, and on success the fields are exactly the wire fields.
 //@ func (*utlsCompressedCertificateMsg).unmarshal
-//@   property C21
+//@   property C21 C33
 //@   let n = data[9]*65536 + data[10]*256 + data[11]
 //@   requires m != nil
 //@   modifies m.raw, m.algorithm, m.uncompressedLength, m.compressedCertificateMessage
@@ -119,7 +119,7 @@ package tls
 // with its codepoint and its exact payload; every other extension leaves the ALPS fields alone.
 //@ spec isALPS(x) = x == utlsExtensionApplicationSettings || x == utlsExtensionApplicationSettingsNew
 //@ func (*encryptedExtensionsMsg).utlsUnmarshal
-//@   property C22
+//@   property C22 C33
 //@   requires m != nil
 //@   modifies m.utls.applicationSettingsCodepoint, m.utls.applicationSettings
 //@   ensures total: ret
@@ -134,7 +134,7 @@ package tls
 // down completely for a message whose only extension is ALPS; in general: some ALPS payload inside data),
 // and without an ALPS extension nothing is recorded.
 //@ func (*encryptedExtensionsMsg).unmarshal
-//@   property C22
+//@   property C22 C33
 //@   note cover:return2/3/4 are unsat on purpose, the three returns are dead code: return2 = `!m.utlsUnmarshal(..)` (utlsUnmarshal always returns true), return3/return4 = `!extData.CopyBytes(make([]byte, len(extData)))` cannot fail (extData is non-nil after ReadUint16LengthPrefixed and the lengths are equal)
 //@   let L = data[4]*256 + data[5]
 //@   let cp1 = data[6]*256 + data[7]
@@ -215,7 +215,7 @@ package tls
 //   hs.serverHello.alpnProtocol, which in TLS 1.3 is always "" (checkServerHelloOrHRR rejects a
 //   ServerHello carrying ALPN), not under c.clientProtocol.
 //@ func (*clientHandshakeStateTLS13).utlsReadServerParameters
-//@   property C22
+//@   property C22 C33
 //@   let cp = encryptedExtensions.utls.applicationSettingsCodepoint
 //@   let proto = hs.c.clientProtocol
 //@   let cfg = hs.c.config.ApplicationSettings
@@ -267,7 +267,7 @@ package tls
 // C21: the certificate handed on is produced by decompressCert from exactly the CompressedCertificate
 // message that was received and added to the transcript; every other message is left to the caller.
 //@ func (*clientHandshakeStateTLS13).utlsReadServerCertificate
-//@   property C21
+//@   property C21 C33
 //@   let cm = msg.(*utlsCompressedCertificateMsg)
 //@   requires hs != nil && hs.uconn != nil && hs.c != nil
 //@   requires typednil: istype(msg, *utlsCompressedCertificateMsg) ==> cm != nil
